@@ -4,6 +4,7 @@ import (
 	"fmt"
 	"io"
 	"sync"
+	"sync/atomic"
 
 	"github.com/bmeg/grip/engine/pipeline"
 	"github.com/bmeg/grip/gdbi"
@@ -172,6 +173,9 @@ func (server *GripServer) addVertex(ctx context.Context, elem *gripql.GraphEleme
 	}
 
 	vertex := elem.Vertex
+	if vertex == nil {
+		return nil, fmt.Errorf("vertex validation failed: no vertex in request")
+	}
 	err = vertex.Validate()
 	if err != nil {
 		return nil, fmt.Errorf("vertex validation failed: %v", err)
@@ -203,6 +207,9 @@ func (server *GripServer) addEdge(ctx context.Context, elem *gripql.GraphElement
 	}
 
 	edge := elem.Edge
+	if edge == nil {
+		return nil, fmt.Errorf("edge validation failed: no edge in request")
+	}
 	if edge.Gid == "" {
 		edge.Gid = util.UUID()
 	}
@@ -224,7 +231,11 @@ func (server *GripServer) BulkAdd(stream gripql.Edit_BulkAddServer) error {
 	var insertCount int32
 	var errorCount int32
 
-	elementStream := make(chan *gdbi.GraphElement, 100)
+	var elementStream chan *gdbi.GraphElement
+	// streamOpen is true while elementStream is consumed by a graph's BulkAdd
+	streamOpen := false
+	// errors reported by the per graph loaders, which run concurrently
+	var loadErrorCount int32
 	wg := &sync.WaitGroup{}
 
 	for {
@@ -247,8 +258,12 @@ func (server *GripServer) BulkAdd(stream gripql.Edit_BulkAddServer) error {
 
 		// create a BulkAdd stream per graph
 		// close and switch when a new graph is encountered
-		if element.Graph != graphName {
-			close(elementStream)
+		if element.Graph != graphName || !streamOpen {
+			if streamOpen {
+				close(elementStream)
+				streamOpen = false
+			}
+			graphName = ""
 			gdb, err := server.getGraphDB(element.Graph)
 			if err != nil {
 				errorCount++
@@ -264,18 +279,19 @@ func (server *GripServer) BulkAdd(stream gripql.Edit_BulkAddServer) error {
 
 			graphName = element.Graph
 			elementStream = make(chan *gdbi.GraphElement, 100)
+			streamOpen = true
 
 			wg.Add(1)
-			go func() {
-				log.WithFields(log.Fields{"graph": element.Graph}).Info("BulkAdd: streaming elements to graph")
+			go func(graphName string, elementStream chan *gdbi.GraphElement) {
+				log.WithFields(log.Fields{"graph": graphName}).Info("BulkAdd: streaming elements to graph")
 				err := graph.BulkAdd(elementStream)
 				if err != nil {
-					log.WithFields(log.Fields{"graph": element.Graph, "error": err}).Error("BulkAdd: error")
+					log.WithFields(log.Fields{"graph": graphName, "error": err}).Error("BulkAdd: error")
 					// not a good representation of the true number of errors
-					errorCount++
+					atomic.AddInt32(&loadErrorCount, 1)
 				}
 				wg.Done()
-			}()
+			}(graphName, elementStream)
 		}
 
 		if element.Vertex != nil {
@@ -304,8 +320,11 @@ func (server *GripServer) BulkAdd(stream gripql.Edit_BulkAddServer) error {
 		}
 	}
 
-	close(elementStream)
+	if streamOpen {
+		close(elementStream)
+	}
 	wg.Wait()
+	errorCount += atomic.LoadInt32(&loadErrorCount)
 
 	return stream.SendAndClose(&gripql.BulkEditResult{InsertCount: insertCount, ErrorCount: errorCount})
 }
